@@ -112,6 +112,43 @@ let run_line lineno line =
          else "" in
        Printf.printf "%d {%s%s}\n" lineno body body_all
      | _ -> failwith "cell")
+  | "assemble" :: n :: hasmask :: rest ->
+    (* assemble n hasmask [mask:n] then per cell: constructed np (right|-1 shift|-1 valid hastet)*  *)
+    let n = int_of_string n in
+    let ios = int_of_string in
+    let rec take k l acc = if k = 0 then (List.rev acc, l) else
+        (match l with x :: r -> take (k - 1) r (x :: acc) | [] -> failwith "take") in
+    let mask, rest =
+      if hasmask = "1" then let (m, r) = take n rest [] in (Some (List.map (fun x -> x = "1") m), r)
+      else (None, rest) in
+    let rec cells i rest acc =
+      if i = n then List.rev acc else
+        (match rest with
+         | c :: np :: rest ->
+           let np = ios np in
+           let (toks, rest) = take (4 * np) rest [] in
+           let rec planes l = match l with
+             | r :: sh :: v :: h :: tl ->
+               { Model.sright = (if ios r < 0 then None else Some (nat_of_int (ios r)));
+                 Model.sshift = (if ios sh < 0 then None else Some (nat_of_int (ios sh)));
+                 Model.svalid = (v = "1"); Model.shastet = (h = "1") } :: planes tl
+             | _ -> [] in
+           let cell = if c = "1" then Some { Model.sidx = nat_of_int i; Model.splanes = planes toks } else None in
+           cells (i + 1) rest (cell :: acc)
+         | _ -> failwith "cells") in
+    let cs = cells 0 rest [] in
+    let t = Model.assemble mask cs in
+    let ni x = string_of_int (int_of_nat x) in
+    let on = function None -> "null" | Some x -> ni x in
+    let face f = Printf.sprintf "[%s,%s,%s,%s]" (ni f.Model.fleft) (on f.Model.fright) (on f.Model.fshift) (ni f.Model.fplane) in
+    let k = t.Model.tconn in
+    let active = Model.cell_is_active (nat_of_int n) mask in
+    let nb = List.init n (fun c -> "[" ^ join ni (Model.tess_neighbour_ids t (nat_of_int c)) ^ "]") in
+    let fidx = List.init n (fun c -> "[" ^ join ni (Model.face_indices k (nat_of_int c)) ^ "]") in
+    Printf.printf "%d {\"faces\":[%s],\"offsets\":[%s],\"counts\":[%s],\"conn\":[%s],\"stored\":[%s],\"nbrs\":[%s],\"fidx\":[%s],\"fi\":[%s],\"fis\":[%s],\"ci\":[%s]}\n" lineno
+      (join face t.Model.tfaces) (join ni k.Model.offsets) (join ni k.Model.counts) (join ni k.Model.connections)
+      (join ni t.Model.tstored) (String.concat "," nb) (String.concat "," fidx)
+      (join face (Model.face_integrals cs)) (join face (Model.face_integrals_sym active cs)) (join ni (Model.cell_integrals cs))
   | "insphere_sweep" :: k :: off :: ai :: _ ->
     let k = int_of_string k and off = z off and ai = int_of_string ai in
     let pt i =
